@@ -363,14 +363,14 @@ def rep_in_region(kf, rep):
 
 def try_replay(pid, o, r):
     fn = REG.replays.get((o.unit, o.name)) or REG.replays.get(o.unit)
-    if fn is None or r.get("model") is None:
+    if fn is None:
         return None
     try:
         if SRC not in sys.path:
             sys.path.insert(0, SRC)
         if REPO not in sys.path:
             sys.path.insert(1, REPO)
-        return fn(r["model"], o)
+        return fn(r.get("model") or {}, o)
     except Exception as e:
         return {"confirmed": False, "error": "".join(traceback.format_exception_only(type(e), e))[:500]}
 
